@@ -570,7 +570,7 @@ func init() {
 		PID: "C16", PLevel: "exploration",
 		RuleText: "the pipeline is provisioned through the real provisioning service (Plan+ApplyPlan), started, and under record flow one change (no-op, processor settings, connector settings, add/remove processor, add destination, DLQ) is applied with ApplyPlanLive at a PRNG-chosen event index or when idle, in one of 8 variants: fresh plan with authorisation (x2), stale plan (another change applied between plan and apply), two concurrent applies planned from the same state, apply without authorisation on the running pipeline, injected failure of the import's store commit, new run cannot be opened after the import, apply on a stopped pipeline. Judged: a stale plan or the second of two concurrent plans never succeeds; without authorisation nothing is stopped, torn down or written and the exported config is unchanged; in restart mode the first configuration write happens only after every plugin session of the old run is torn down and with stored position >= last ack; after the apply every source reopens at the stored position with no unhandled record behind it; after a failed/refused apply the exported config is fully old or fully new, a restarted server would load the same config as the live services export, and the status is not Running without a live run; every source ack in the history is justified (C01 predicate). Non-trivial: >=1 apply judged; distinct = distinct (engine, topology, change kind, variant, apply outcomes).",
 		Assume:   []string{"changes only touch neutral (pass/modify) processors and always-acking destinations so that the reference model of the old topology stays valid for the C01 predicate", "the HTTP handler's passing of the operator flag is not exercised (service level only)", "processor conditions are excluded from config comparison (recorded C15 finding)"},
-		Quick:    240, Thorough: 7000, HangIsViol: true, DeathIsViol: true,
+		Quick:    240, Thorough: 2400, HangIsViol: true, DeathIsViol: true,
 		PointBias: []string{"provisioning.applylive.stopped", "provisioning.applylive.imported", "lifecycle.start.checked", "lifecycle.start.before-run", "lifecycle.stop.checked", "lifecycle.recover.backoff-elapsed", "lifecycle.run.ended", "pipeline.updatestatus.before-store"},
 		Anchors:   []string{"pkg/provisioning/plan.go", "pkg/provisioning/lock.go", "pkg/provisioning/import.go", "pkg/lifecycle/reconfigure.go"},
 		Gen:       gen, Judge: judge, Hooks: hooks,
